@@ -525,8 +525,12 @@ func checkC17(res *Result) {
 	}
 	// R7
 	addErrFlowObligations(res, p, E, "C17-R7", append([]string{"sideEffectActor.InboxForwarding", "sideEffectActor.hasInboxForwardingValues"}, optionalFuncs(p, []string{"sideEffectActor.deliverToRecipients"})...), true)
-	res.Rule("C17-R7", "'is owned by this server' is asked about the value's id in the library's one sense (shared with C06-R7)")
-	checkIdentity(res, p, "C17-R7")
+	res.Rule("C17-R9", "'is owned by this server' is asked about the value's id in the library's one sense (shared with C06-R7)")
+	checkIdentity(res, p, "C17-R9")
+	res.Rule("C17-R8", "the forwarded payload has the members that were received: the default federating callbacks, which run on the same activity value before InboxForwarding, never call a mutator on the activity or on a value read out of it")
+	checkCallbacksLeaveActivity(res, p, "C17-R8")
+	res.Rule("C17-R10", "the value searched for owned ids is the fetched document alone: every json.Unmarshal in pub decodes into a variable fresh for that decode (local to the activation, declared inside the loop)")
+	checkFreshDecodeTargets(res, p, "C17-R10")
 	res.Assumptions = append(res.Assumptions, "value flow is an over-approximation", "CFG paths over-approximate feasible paths")
 	res.Undecided = []string{"the 'iff' at value level (which concrete ids are owned at which chain level)", "that the forwarded bytes equal the received bytes (C01)"}
 	res.Trusted = []string{"go/types, go/ssa (x/tools v0.29.0)", "e1_effects.go, e2_facts.go, e4_flow.go, e9_errflow.go"}
